@@ -10,8 +10,10 @@ arbitrary input) and `Lemmas/StreamRun.lean` (the entry loops, the visitor's cen
 `CentralParse.lean`, `ZipLayout.lean`, `ReadWf.lean`, `ReadEntry.lean`, `Props/C03.lean`).
 
 * the producer is `Spec.Zip.build : Layout → Bytes` (APPNOTE, independent of the crate);
-* the streaming reader is `Model.streamHeader` / `streamEntryC` / `streamEntriesC` (consume `k` decoded
-  bytes of each entry, then drop the handle: the drop drains the rest of the `Take`) / `streamEntries`
+* the streaming reader is `Model.streamHeader` / `streamEntryC` / `streamEntriesC` (a consumer `Consume`
+  per entry: it asks for `k` decoded bytes, its reads pull `pulled` compressed bytes through the `Take` in
+  reads of `chunk` bytes — decoder read-ahead is any `pulled` —, then it drops the handle and `drain` reads
+  what is left of the `Take` in 64 KiB reads, as `ZipFile::drop` does) / `streamEntries`
   (read everything) / `streamVisit` (Model/Reader.lean, tied to the crate by the `read` stream:
   `read.stream`, `read.streamc`);
 * the seekable reader is `Model.openArchive` / `byIndexRead` (C03).
@@ -79,20 +81,35 @@ theorem stream_view_fields (e : Entry) :
     v.headerStart = 0 ∧ v.dataStart = 0 ∧ v.centralHeaderStart = 0 :=
   ⟨rfl, rfl, rfl, rfl, rfl, rfl, rfl, rfl, rfl, rfl, rfl, rfl, rfl, rfl, rfl⟩
 
-/-- **`drain_positions`** — however many decoded bytes `k` the consumer reads before it drops the handle,
-the entry is reported as `streamViewEntry e`, the consumer has seen `consumeK` of the decoder's output,
-and the device is left exactly `compressed size` bytes behind the first data byte, i.e. on the next
-record: the drop-time drain reads the rest of the `Take`. -/
-theorem drain_positions (ext : Ext) (k : Nat) (e : Entry) (hf : e.Fits) (hs : LocalSizesOk e) (d : Dev)
+/-- **`drain_positions`** — whatever the consumer `c` does before it drops the handle — asks for any number
+`c.k` of decoded bytes, has pulled ANY number `c.pulled` of compressed bytes through the `Take` by then (a
+decoder reading ahead, a consumer stopping early or never reading), in reads of ANY size `c.chunk` — the
+entry is reported as `streamViewEntry e`, the consumer has seen `consumeK` of the decoder's output, and the
+drain of `ZipFile::drop` leaves the device exactly `compressed size` bytes behind the first data byte, i.e.
+on the next record.  (`streamEntryC` performs the consumer's reads and the drain's reads as device steps: a
+reader that skipped or shortened the drain would end at `data start + pulled` — `no_drain_counter_model`.) -/
+theorem drain_positions (ext : Ext) (c : Consume) (e : Entry) (hf : e.Fits) (hs : LocalSizesOk e) (d : Dev)
     (rest : Bytes) (hd : d.buf.drop d.pos = localRecord e ++ (e.data ++ rest)) :
-    ∃ d', (streamEntryC ext k).runPure d =
-        (.ok (some (streamViewEntry e, consumeK e.crc (ext.decode (Method.fromU16 e.method) e.data) k)), d') ∧
+    ∃ d', (streamEntryC ext c).runPure d =
+        (.ok (some (streamViewEntry e, consumeK e.crc (ext.decode (Method.fromU16 e.method) e.data)
+          (ext.decodeBefore (Method.fromU16 e.method) e.data c.k) c.k)), d') ∧
       d'.buf = d.buf ∧ d'.pos = d.pos + (localRecord e).length + e.data.length ∧
       d'.buf.drop d'.pos = rest := by
-  obtain ⟨d', h1, h2, h3⟩ := runs_streamEntryC ext k e hf hs hd d rfl rfl
+  obtain ⟨d', h1, h2, h3⟩ := runs_streamEntryC ext c e hf hs hd d rfl rfl
   refine ⟨d', h1, h2, h3, ?_⟩
   rw [h2, h3]
   exact drop_past (drop_past hd)
+
+/-- **`drain_reads_the_rest`** — the two device phases separately: on a device holding the `csize` bytes of the
+`Take` at `ds`, the consumer's reads deliver some `n ≤ min pulled csize` bytes without error and leave the
+device at `ds + n`; the drain, started there with the `Take`'s remaining limit `csize − n`, ends at
+`ds + csize` — for every `pulled` and `chunk`. -/
+theorem drain_reads_the_rest (B : Bytes) (ds csize pulled chunk : Nat) (h : csize ≤ B.length - ds) :
+    ∃ n, n ≤ min pulled csize ∧
+      Runs (takeLoop chunk (min pulled csize) (min pulled csize)) B ds (.ok (n, none)) (ds + n) ∧
+      Runs (drain (csize - n)) B (ds + n) (.ok ()) (ds + csize) := by
+  obtain ⟨n, hn, hr, _⟩ := runs_takeLoop (B := B) chunk (min pulled csize) (min pulled csize) ds (by omega)
+  exact ⟨n, hn, hr, (runs_drain (B := B) (csize - n) (ds + n) (by omega)).cast rfl (by omega)⟩
 
 /-- the data start is the one the seekable reader computes (`Props.C03.reader_entry_raw`) -/
 theorem drain_position_spec (e : Entry) (off : Nat) :
@@ -100,33 +117,51 @@ theorem drain_position_spec (e : Entry) (off : Nat) :
   rw [localRecord_length]; simp [Entry.dataStart]; omega
 
 /-- What the consumer sees (`consumeK`): nothing; the first `k` bytes; everything and the CRC verdict. -/
-theorem consume_none (crc : UInt32) (dec : Bytes) : consumeK crc (.ok dec) 0 = .ok [] := by
+theorem consume_none (crc : UInt32) (dec bf : Bytes) : consumeK crc (.ok dec) bf 0 = .ok [] := by
   simp [consumeK]
 
-theorem consume_part (crc : UInt32) (dec : Bytes) (k : Nat) (h : k ≤ dec.length) :
-    consumeK crc (.ok dec) k = .ok (dec.take k) := by
+theorem consume_part (crc : UInt32) (dec bf : Bytes) (k : Nat) (h : k ≤ dec.length) :
+    consumeK crc (.ok dec) bf k = .ok (dec.take k) := by
   simp [consumeK, h]
 
-theorem consume_all (crc : UInt32) (dec : Bytes) (k : Nat) (h : dec.length < k) :
-    consumeK crc (.ok dec) k = crcCheck false crc dec := by
+theorem consume_all (crc : UInt32) (dec bf : Bytes) (k : Nat) (h : dec.length < k) :
+    consumeK crc (.ok dec) bf k = crcCheck false crc dec := by
   simp [consumeK, Nat.not_le.mpr h]
+
+/-- … and on a DAMAGED stream (the decoder ends with an error `x`): the bytes the decoder hands out before
+it notices are delivered — `k` of them when there are that many —, else the error.  (Before review finding
+F5 the model answered `x` for every `k`; the crate returns the first bytes: a 70 000-byte deflate entry
+damaged near its end still yields its first byte.) -/
+theorem consume_damaged_part (crc : UInt32) (x : ZErr) (bf : Bytes) (k : Nat) (h : k ≤ bf.length) :
+    consumeK crc (.err x) bf k = .ok (bf.take k) := by
+  simp [consumeK, h]
+
+theorem consume_damaged_err (crc : UInt32) (x : ZErr) (bf : Bytes) (k : Nat) (h : bf.length < k) :
+    consumeK crc (.err x) bf k = .err x := by
+  simp [consumeK, Nat.not_le.mpr h]
+
+/-- a consumer that never reads sees no error, whatever the state of the stream -/
+theorem consume_zero (crc : UInt32) (x : ZErr) (bf : Bytes) : consumeK crc (.err x) bf 0 = .ok [] := by
+  simp [consumeK]
 
 /-! ## 2. The entry loop under a consumption pattern -/
 
 /-- **`stream_entries_eq`** — for every layout whose values fit their fields, whose local records are
 contiguous and carry the sizes, with at least one entry, and for EVERY consumption pattern `c` (a list of
-byte counts, cycled over the entries): `read_zipfile_from_stream` called in a loop on `build l`, reading
-`c_i` decoded bytes of entry `i` and dropping the handle, returns for each entry, in order,
-`(streamViewEntry e_i, consumeK e_i.crc (decode m_i e_i.data) c_i)`, then signals the end of entries at
+consumers — decoded bytes asked for, compressed bytes pulled, read size —, cycled over the entries):
+`read_zipfile_from_stream` called in a loop on `build l`, reading `c_i.k` decoded bytes of entry `i` and
+dropping the handle, returns for each entry, in order,
+`(streamViewEntry e_i, consumeK e_i.crc (decode m_i e_i.data) (decodeBefore …) c_i.k)`, then signals the end of entries at
 the central directory (exactly `l.entries.length` entries), and leaves the device 4 bytes into the central
 directory (the signature it has consumed). -/
 theorem stream_entries_eq (ext : Ext) (l : Layout) (hF : l.Fits) (hC : Contiguous l) (hS : LocalSizes l)
-    (hne : l.entries ≠ []) (c : List Nat) :
+    (hne : l.entries ≠ []) (c : List Consume) :
     ∃ r d', (streamEntriesC ext c ((build l).length / 30 + 1) 0).runPure (Dev.ofBytes (build l)) = (.ok r, d') ∧
       r.length = l.entries.length ∧
       (∀ i e, l.entries[i]? = some e →
         r[i]? = some (streamViewEntry e,
-          consumeK e.crc (ext.decode (Method.fromU16 e.method) e.data) (patAt c i))) ∧
+          consumeK e.crc (ext.decode (Method.fromU16 e.method) e.data)
+            (ext.decodeBefore (Method.fromU16 e.method) e.data (patAt c i).k) (patAt c i).k)) ∧
       d'.buf = build l ∧ d'.pos = l.cdStart + 4 ∧ r = streamResultsC ext c 0 l.entries := by
   obtain ⟨d', h1, h2, h3⟩ := runs_streamEntriesC_build ext c l hF hC.1 hC.2.2 (contiguous_entries hC hS) hne
     (Dev.ofBytes (build l)) rfl rfl
@@ -136,28 +171,30 @@ theorem stream_entries_eq (ext : Ext) (l : Layout) (hF : l.Fits) (hC : Contiguou
   exact this
 
 /-- entry `i` of the result -/
-theorem stream_entries_get (ext : Ext) (c : List Nat) (l : Layout) (i : Nat) (e : Entry)
+theorem stream_entries_get (ext : Ext) (c : List Consume) (l : Layout) (i : Nat) (e : Entry)
     (he : l.entries[i]? = some e) :
     (streamResultsC ext c 0 l.entries)[i]? =
       some (streamViewEntry e,
-        consumeK e.crc (ext.decode (Method.fromU16 e.method) e.data) (patAt c i)) := by
+        consumeK e.crc (ext.decode (Method.fromU16 e.method) e.data)
+          (ext.decodeBefore (Method.fromU16 e.method) e.data (patAt c i).k) (patAt c i).k) := by
   have := streamResultsC_getElem ext c l.entries 0 i e he
   rw [Nat.zero_add] at this
   exact this
 
 /-- `patAt c i` is the `i`-th element of the pattern, cycled. -/
-theorem patAt_spec (c : List Nat) (i : Nat) (hc : c ≠ []) :
+theorem patAt_spec (c : List Consume) (i : Nat) (hc : c ≠ []) :
     c[i % c.length]? = some (patAt c i) := by
   have hl : 0 < c.length := List.length_pos_iff.mpr hc
   have : i % c.length < c.length := Nat.mod_lt _ hl
-  unfold patAt
+  unfold patAt Consume.at
   rw [List.getElem?_eq_getElem this]
 
-/-- **`stream_consumption_independent`** — two consumers with different patterns see the same sequence
+/-- **`stream_consumption_independent`** — two consumers with different patterns (different byte counts,
+different amounts of compressed data pulled through the `Take`, different read sizes) see the same sequence
 of entries (metadata) and leave the stream at the same position: the drain makes the position after each
 entry `data start + compressed size` whatever was consumed (`drain_positions`). -/
 theorem stream_consumption_independent (ext : Ext) (l : Layout) (hF : l.Fits) (hC : Contiguous l)
-    (hS : LocalSizes l) (hne : l.entries ≠ []) (c c' : List Nat) :
+    (hS : LocalSizes l) (hne : l.entries ≠ []) (c c' : List Consume) :
     ∃ r r' d d', (streamEntriesC ext c ((build l).length / 30 + 1) 0).runPure (Dev.ofBytes (build l)) = (.ok r, d) ∧
       (streamEntriesC ext c' ((build l).length / 30 + 1) 0).runPure (Dev.ofBytes (build l)) = (.ok r', d') ∧
       r.map Prod.fst = r'.map Prod.fst ∧ r.map Prod.fst = l.entries.map streamViewEntry ∧
@@ -168,14 +205,14 @@ theorem stream_consumption_independent (ext : Ext) (l : Layout) (hF : l.Fits) (h
   · rw [hr, hr', streamResultsC_fst, streamResultsC_fst]
   · rw [hr, streamResultsC_fst]
 
-/-- A consumer that reads every entry to end-of-file (`c_i` beyond the decoded length) sees what the
-read-everything loop `streamEntries` reports: the decoder's output gated by the CRC. -/
-theorem stream_entries_all (ext : Ext) (c : List Nat) (l : Layout)
-    (hall : ∀ i e, l.entries[i]? = some e → ∀ dec,
-      ext.decode (Method.fromU16 e.method) e.data = .ok dec → dec.length < patAt c i) :
+/-- A consumer that reads every entry to end-of-file (`c_i.k` beyond the decoded length; on a damaged
+stream beyond what comes out before the error: `Model.Beyond`) sees what the read-everything loop
+`streamEntries` reports: the decoder's output gated by the CRC. -/
+theorem stream_entries_all (ext : Ext) (c : List Consume) (l : Layout)
+    (hall : ∀ i e, l.entries[i]? = some e → Beyond ext e (patAt c i).k) :
     streamResultsC ext c 0 l.entries = streamResults ext l.entries :=
-  streamResultsC_all ext c l.entries 0 (fun j e he dec hd => by
-    rw [Nat.zero_add]; exact hall j e he dec hd)
+  streamResultsC_all ext c l.entries 0 (fun j e he => by
+    rw [Nat.zero_add]; exact hall j e he)
 
 /-! ## 3. Agreement with the seekable reader -/
 
@@ -226,7 +263,8 @@ theorem stream_eq_seek (ext : Ext) (l : Layout) (hF : l.Fits) (hC : Contiguous l
 the first `k` bytes of `content` — all of it when `k` exceeds its length — for every `k`. -/
 theorem stream_prefix_of_seek (ext : Ext) (e : Entry) (content : Bytes) (k : Nat)
     (h : (ext.decode (Method.fromU16 e.method) e.data >>= fun dec => crcCheck false e.crc dec) = .ok content) :
-    consumeK e.crc (ext.decode (Method.fromU16 e.method) e.data) k = .ok (content.take k) := by
+    consumeK e.crc (ext.decode (Method.fromU16 e.method) e.data)
+      (ext.decodeBefore (Method.fromU16 e.method) e.data k) k = .ok (content.take k) := by
   cases hd : ext.decode (Method.fromU16 e.method) e.data with
   | err x => rw [hd] at h; cases h
   | panic x => rw [hd] at h; cases h
@@ -309,7 +347,7 @@ theorem stream_refuses_header (e : Entry) (hf : e.Fits) (hx : ExtraOk e.localExt
 contiguous, an entry `e` the stream cannot serve (encrypted, data descriptor, no decoder) makes the entry
 loop — under every consumption pattern — and the visitor end with `UnsupportedArchive` when they reach
 it: an error, never an entry, never data. -/
-theorem stream_refuses (ext : Ext) (c : List Nat) (l : Layout) (hF : l.Fits) (hp : l.pre = [])
+theorem stream_refuses (ext : Ext) (c : List Consume) (l : Layout) (hF : l.Fits) (hp : l.pre = [])
     (es1 es2 : List Entry) (e : Entry) (hes : l.entries = es1 ++ e :: es2)
     (h1 : ∀ x ∈ es1, LocalSizesOk x ∧ x.gapBefore = []) (hg : e.gapBefore = [])
     (hx : ExtraOk e.localExtra) (hr : StreamRefused e) :
@@ -326,16 +364,22 @@ theorem stream_refuses (ext : Ext) (c : List Nat) (l : Layout) (hF : l.Fits) (hp
 I/O fault: whenever the streaming reader hands out an entry, that entry has the encryption flag and the
 data-descriptor flag clear and a method the crate has a decoder for.  Contrapositive: encrypted and
 data-descriptor entries never yield an entry (hence never data) — the call ends in an error. -/
-theorem stream_never_data (ext : Ext) (k : Nat) (fa : Option Nat) (d d' : Dev) (f : FileData)
-    (res : Out Bytes) (h : streamEntryC ext k fa d = (.ok (some (f, res)), d')) :
+theorem stream_never_data (ext : Ext) (c : Consume) (fa : Option Nat) (d d' : Dev) (f : FileData)
+    (res : Out Bytes) (h : streamEntryC ext c fa d = (.ok (some (f, res)), d')) :
     f.encrypted = false ∧ f.usingDataDescriptor = false ∧ f.method.decodable = true := by
   unfold streamEntryC at h
   obtain ⟨hd, d1, h1, h2⟩ := M.bind_ok_inv h
   cases hd with
   | none => cases M.pure_ok_inv h2
   | some f0 =>
-    obtain ⟨raw, d2, _, h3⟩ := M.bind_ok_inv h2
-    have hf : f0 = f := congrArg Prod.fst (Option.some.inj (M.pure_ok_inv h3))
+    obtain ⟨dv, d2, _, h3⟩ := M.bind_ok_inv h2
+    obtain ⟨ne, d3, _, h4⟩ := M.bind_ok_inv h3
+    obtain ⟨_, d4, _, h5⟩ := M.bind_ok_inv h4
+    have hf : f0 = f := by
+      obtain ⟨n, eo⟩ := ne
+      cases eo with
+      | none => exact congrArg Prod.fst (Option.some.inj (M.pure_ok_inv h5))
+      | some x => exact congrArg Prod.fst (Option.some.inj (M.pure_ok_inv h5))
     rw [← hf]
     exact streamHeader_some_sound fa d d1 f0 h1
 
@@ -382,23 +426,77 @@ example : (build exL).length = 244 ∧ exL.cdStart = 100 ∧ exL.end64Pos = 220 
 attribute [local instance] decEqOutBytes
 
 /-- … and the model really computes that on these 244 bytes (kernel evaluation of the entry loop under
-three patterns — nothing / 2 bytes then everything + 1 / everything + 1 —, positions included). -/
+three patterns — nothing asked and nothing pulled / 2 bytes asked with ONE compressed byte pulled in 1-byte
+reads, then everything + 1 with a read-ahead beyond the compressed size / everything + 1 —, positions
+included: the drain makes up for whatever was not pulled). -/
 example :
-    (match (streamEntriesC exExt [0] ((build exL).length / 30 + 1) 0).runPure (Dev.ofBytes (build exL)) with
+    (match (streamEntriesC exExt [⟨0, 0, 65536⟩] ((build exL).length / 30 + 1) 0).runPure (Dev.ofBytes (build exL)) with
      | (.ok r, d) => r == [(streamViewEntry exA, .ok []), (streamViewEntry exB, .ok [])] && d.pos == 104
      | _ => false) = true := by decide +kernel
 
 example :
-    (match (streamEntriesC exExt [2, 4] ((build exL).length / 30 + 1) 0).runPure (Dev.ofBytes (build exL)) with
+    (match (streamEntriesC exExt [⟨2, 1, 1⟩, ⟨4, 1000, 2⟩] ((build exL).length / 30 + 1) 0).runPure (Dev.ofBytes (build exL)) with
      | (.ok r, d) => r == [(streamViewEntry exA, .ok [0x68, 0x65]), (streamViewEntry exB, .err (.io .other))] &&
         d.pos == 104
      | _ => false) = true := by decide +kernel
 
 example :
-    (match (streamEntriesC exExt [1000] ((build exL).length / 30 + 1) 0).runPure (Dev.ofBytes (build exL)) with
+    (match (streamEntriesC exExt [⟨1000, 1000, 65536⟩] ((build exL).length / 30 + 1) 0).runPure (Dev.ofBytes (build exL)) with
      | (.ok r, d) => r == [(streamViewEntry exA, .ok exA.data), (streamViewEntry exB, .err (.io .other))] &&
         r == streamResults exExt exL.entries && d.pos == 104
      | _ => false) = true := by decide +kernel
+
+/-- **`no_drain_counter_model`** — the consumption theorems are not true by construction: the same entry
+reader WITHOUT the drain (or with a drain that is skipped once the consumer has asked for `size()` bytes —
+the seeded change "drop-time drain skipped once the consumer has read size() bytes") ends where the
+consumer's reads ended, `data start + pulled`, and the next call reads entry data as a header. -/
+def streamEntryNoDrain (ext : Ext) (c : Consume) : M (Option (FileData × Out Bytes)) := do
+  let h ← streamHeader
+  match h with
+  | none => pure none
+  | some f => do
+    let csize := f.compressedSize.toNat
+    let d ← M.getDev
+    let raw := (d.buf.drop d.pos).take csize
+    let p := min c.pulled csize
+    let (n, e) ← takeLoop c.chunk p p
+    if c.k < f.uncompressedSize.toNat then drain (csize - n) else pure ()
+    match e with
+    | some e => pure (some (f, .err e))
+    | none => pure (some (f, ext.consume f raw c.k))
+
+/-- "a.txt" (5 stored bytes at 35..40): a consumer that asks for all 5 bytes while the decoder has pulled only
+3 compressed bytes — with the drain the device stands at 40, the next record; without it at 38, and the next
+header read fails -/
+example :
+    (match (streamEntryC exExt ⟨5, 3, 65536⟩).runPure (Dev.ofBytes (build exL)),
+           (streamEntryNoDrain exExt ⟨5, 3, 65536⟩).runPure (Dev.ofBytes (build exL)) with
+     | (.ok (some (_, r)), d), (.ok (some (_, r')), d') =>
+        r == .ok exA.data && r' == .ok exA.data && d.pos == 40 && d'.pos == 38 &&
+        (match streamHeader.runPure d, streamHeader.runPure d' with
+         | (.ok (some f), _), (.err .invalidArchive, _) => f.fileNameRaw == exB.name
+         | _, _ => false)
+     | _, _ => false) = true := by decide +kernel
+
+/-- a decoder for the examples of a DAMAGED stream: method 8 "decodes" by failing with `InvalidInput` after
+handing out the first two bytes -/
+def exExtDamaged : Ext :=
+  { exExt with
+    decode := fun m b => match m with
+      | .stored => .ok b
+      | _ => .err (.io .invalidInput)
+    decodeBefore := fun _ b _ => b.take 2 }
+
+/-- "a.txt" declared Deflated: asking for 0, 1, 2 bytes delivers them, asking for 3 or for everything is the
+decoder's error; the position after the entry is the same in all cases -/
+example :
+    let l : Layout := { exL with entries := [{ exA with method := 8 }, exB] }
+    ([0, 1, 2, 3, 1000].map fun k =>
+      match (streamEntryC exExtDamaged ⟨k, k, 65536⟩).runPure (Dev.ofBytes (build l)) with
+      | (.ok (some (_, r)), d) => (r == .ok (exA.data.take k), r == .err (.io .invalidInput), d.pos)
+      | _ => (false, false, 0)) =
+    [(true, false, 40), (true, false, 40), (true, false, 40), (false, true, 40), (false, true, 40)] := by
+  decide +kernel
 
 /-- the stream's view of "b": sizes from the local ZIP64 record, local extra field verbatim, UTF-8 name,
 no comment / attributes / offsets -/
@@ -442,8 +540,8 @@ example : StreamRefused { exB with flags := 0x0801 } ∧ StreamRefused { exB wit
     ¬ StreamRefused exA ∧ ¬ StreamRefused exB := by decide +kernel
 
 example :
-    (match (streamEntriesC exExt [3] ((build exEnc).length / 30 + 1) 0).runPure (Dev.ofBytes (build exEnc)),
-           (streamEntriesC exExt [0] ((build exDesc).length / 30 + 1) 0).runPure (Dev.ofBytes (build exDesc)),
+    (match (streamEntriesC exExt [⟨3, 3, 65536⟩] ((build exEnc).length / 30 + 1) 0).runPure (Dev.ofBytes (build exEnc)),
+           (streamEntriesC exExt [⟨0, 0, 65536⟩] ((build exDesc).length / 30 + 1) 0).runPure (Dev.ofBytes (build exDesc)),
            (streamVisit exExt).runPure (Dev.ofBytes (build exAes)) with
      | (.err .unsupportedArchive, _), (.err .unsupportedArchive, _), (.err .unsupportedArchive, _) => true
      | _, _, _ => false) = true := by decide +kernel
@@ -454,7 +552,7 @@ def exEmpty : Layout := { exL with entries := [] }
 
 example : exEmpty.Fits ∧ Contiguous exEmpty ∧ LocalSizes exEmpty ∧ exEmpty.entries = [] := by decide +kernel
 example :
-    (match (streamEntriesC exExt [0] ((build exEmpty).length / 30 + 1) 0).runPure (Dev.ofBytes (build exEmpty)) with
+    (match (streamEntriesC exExt [⟨0, 0, 65536⟩] ((build exEmpty).length / 30 + 1) 0).runPure (Dev.ofBytes (build exEmpty)) with
      | (.err .invalidArchive, _) => true
      | _ => false) = true := by decide +kernel
 
@@ -464,7 +562,7 @@ def exGap : Layout := { exL with gapBeforeCd := [0] }
 
 example : exGap.Fits ∧ LocalSizes exGap ∧ ¬ Contiguous exGap := by decide +kernel
 example :
-    (match (streamEntriesC exExt [0] ((build exGap).length / 30 + 1) 0).runPure (Dev.ofBytes (build exGap)) with
+    (match (streamEntriesC exExt [⟨0, 0, 65536⟩] ((build exGap).length / 30 + 1) 0).runPure (Dev.ofBytes (build exGap)) with
      | (.err .invalidArchive, _) => true
      | _ => false) = true := by decide +kernel
 
